@@ -996,6 +996,15 @@ def classify(loop):
                 out[v] = Fold("EXT", sense="min", strict=(c[1] == "<"), init=init, term=e, cond=c, none_seeded=none_seeded)
                 ext[c] = v
                 continue
+        # running optimum updated under an inexact (tolerance band) comparison
+        if u[0] == "ite" and u[3] == acc and u[1][0] == "cmp" and u[1][1] in ("<", "<=") and not mentions_acc(u[2], loop.id) \
+                and mentions(u[1], lambda x: x == acc) and mentions(u[1], lambda x: x == u[2]):
+            c = u[1]
+            lhs_has_acc = mentions(c[2], lambda x: x == acc)
+            out[v] = Fold("EXT", sense="max" if lhs_has_acc else "min", strict=(c[1] == "<"), init=init, term=u[2], cond=c,
+                          none_seeded=False, band=True)
+            ext[c] = v
+            continue
         out[v] = None
     # second pass: ARG and ARGSET relative to an EXT variable
     for v, u in ups.items():
@@ -1012,6 +1021,9 @@ def classify(loop):
             label = u[2][1][0]
             rest = u[3]
             eqc = simp(("cmp", "==", best.term, ("acc", loop.id, bestv)))
+            if getattr(best, "band", False) and rest[0] == "ite" and rest[3] == acc and rest[2] == simp(("cat", acc, ("list", (label,)))):
+                out[v] = Fold("ARGSET", of=bestv, init=init, label=label, ties="band", tie_cond=rest[1])
+                continue
             tie = (rest[0] == "ite" and rest[1] == eqc and rest[3] == acc
                    and rest[2] == simp(("cat", acc, ("list", (label,)))))
             if tie and not mentions_acc(label, loop.id):
